@@ -370,6 +370,15 @@ def d4_whole_file_rewrites(ctx):
                 ctx.decide(always_raises(h.body), 'R-RECOVER', 'D4', f, h, 'handler-reraises',
                            f'{f.qualname}: handler around parsing re-raises',
                            detail='a parse error of a torn file is swallowed')
+    # in-place rewrite: the writers never remove or move the file they are about to write — a missing metadata.json is a
+    # legitimate state ("no metadata") that the reader turns into {}, so a crash between removal and rewrite would open
+    # successfully showing something that is neither the old nor the new state
+    for w in (wj, ctx.repo.func('DataDir._write_txt')):
+        gone = [e for e in ctx.E.primitives(w) if e.kind in ('DELETE', 'RMTREE', 'RMDIR')]
+        ctx.decide(not gone, 'R-ORDER', 'D4', w, gone[0].node if gone else None, 'rewrite-in-place',
+                   f'{w.qualname} rewrites the file in place (it never removes it first)',
+                   detail=f'`{norm(gone[0].node)[:50]}` makes the file disappear before the new content is written: a crash in '
+                          f'between leaves no file, which for metadata.json reads as "no metadata"' if gone else '')
     wt = ctx.repo.func('DataDir._write_txt')
     ws = [e for e in ctx.E.primitives(wt) if e.kind == 'WRITE-HANDLE']
     ctx.decide(len(ws) == 1 and isinstance(ws[0].node.args[0], ast.Name) and ws[0].node.args[0].id in wt.params,
